@@ -26,6 +26,10 @@ pub struct Hooks {
     /// Overrides the monotonic clock. `None` means "no override." `Some(None)`
     /// means "this platform has no monotonic clock."
     pub monotonic: fn() -> Option<Option<std::time::Instant>>,
+    /// Asked immediately before a file system call at the named site. If it
+    /// returns true, the call is not made and fails with an I/O error
+    /// instead (as if the system call had returned `EIO`).
+    pub fault: fn(&'static str) -> bool,
 }
 
 static HOOKS: OnceLock<Hooks> = OnceLock::new();
@@ -43,6 +47,20 @@ pub(crate) fn point(site: &'static str) {
     if let Some(hooks) = HOOKS.get() {
         (hooks.point)(site);
     }
+}
+
+/// Should the file system call at this site fail with an injected error?
+#[inline]
+pub(crate) fn fault(site: &'static str) -> bool {
+    match HOOKS.get() {
+        Some(hooks) => (hooks.fault)(site),
+        None => false,
+    }
+}
+
+/// The error an injected fault fails with.
+pub(crate) fn injected_error() -> std::io::Error {
+    std::io::Error::new(std::io::ErrorKind::Other, "injected I/O error")
 }
 
 /// Returns the simulated monotonic time, if there is one.
